@@ -17,8 +17,13 @@ def check(tier):
             'functions, the dfcc frame of the contract on uscxml_step (only ctx->flags/event/config/history/invocations/initialized_data are '
             'assigned), life-cycle postconditions (FINISHED absorbing, IDLE leaves configuration unchanged), dequeue order (internal before '
             'external, external only at a stable point), callback argument validity, and generator-side sizing facts. The unbounded '
-            'DEQUEUE_EVENT loop is closed by a loop contract + glue lemma. The SECOND sentence of C04 (no out-of-bounds access) is what is decided; '
-            'equality with the interpreter\'s trace (first sentence) is NOT - the interpreter is C++ and out of reach.')
+            'DEQUEUE_EVENT loop is closed by a loop contract + glue lemma. Function against a spec function (engines/genc/spec_step.h, from Appendix D '
+            'of the Recommendation over independently read document facts): after every step that returns OK from a legal pre-state the configuration '
+            'equals sps_config(configuration, history, sps_select(answers of is_matched/is_true)) - obligations C04.select / C04.step; for charts with '
+            'the log convention (generated charts, corpus/c12) the onexit / transition / onentry blocks that ran are exactly exit set / optimal '
+            'transition set / entry set, in the prescribed order (C04.content / C04.order); done events C04.done. Documents with nested histories are '
+            'excluded from the spec-function clauses. The SECOND sentence of C04 (no out-of-bounds access) is decided for all contexts; of the FIRST '
+            'sentence the reference is the Recommendation\'s algorithm, NOT the interpreter\'s trace - the interpreter is C++ and out of reach.')
     return genc_common.account('C04', tier, want, expl, 'translation_validation')
 
 
